@@ -240,6 +240,21 @@ static void part_e(Ctx& ctx, int which, int l2o, const CpuCfg& cfg) {
 }
 
 // ---- F: every m through the dispatching API and the *_simple forms --------------------------------------
+// a buffer whose LAST byte is the last byte of a readable page, the next page being unmapped: a conversion that reads past its input
+// (a block loaded ahead of its use) faults here and nowhere else
+struct FlushBuf {
+  uint8_t* base = 0; size_t len = 0; uint8_t* p = 0;
+  explicit FlushBuf(size_t bytes) {
+    size_t pages = (bytes + 4095) / 4096 + 1;
+    len = (pages + 1) * 4096;
+    base = (uint8_t*)mmap(0, len, PROT_READ | PROT_WRITE, MAP_PRIVATE | MAP_ANONYMOUS, -1, 0);
+    if (base == MAP_FAILED) machinery_error("mmap");
+    if (mprotect(base + pages * 4096, 4096, PROT_NONE)) machinery_error("mprotect");
+    p = base + pages * 4096 - bytes;
+  }
+  ~FlushBuf() { if (base) munmap(base, len); }
+};
+
 static void part_f(Ctx& ctx, uint64_t m, const CpuCfg& cfg) {
   std::string id = sfmt("dispatch|%s|m=%llu|all six conversions through new_*_precomp and *_simple, every log2bound / log2overhead value", cfg.name, (unsigned long long)m);
   if (!ctx.want(id)) return;
@@ -258,6 +273,26 @@ static void part_f(Ctx& ctx, uint64_t m, const CpuCfg& cfg) {
     for (uint64_t i = 0; i < m; ++i) for (int c = 0; c < 2; ++c) { double e = (double)x.as<int32_t>()[c * m + i] * 0x1p-32; if (r.as<double>()[2 * i + c] != e || r2.as<double>()[2 * i + c] != e) { ctx.violation(id, "cplx_from_tnx32 (precomp or simple) is not exact"); i = m; break; } }
     if (!x.guards_ok() || !r.guards_ok() || !r2.guards_ok()) ctx.violation(id, "write outside a declared extent (int32 -> complex)");
     free(p1); free(p2);
+  }
+  // every conversion once with its input (and once with its output) ending exactly where the mapped memory ends
+  {
+    FlushBuf xi(n * 8), xo(n * 8), x32(n * 4), o32(n * 4);
+    GBuf r(n * 8, 16), r4(n * 4, 16);
+    for (uint64_t i = 0; i < n; ++i) { ((int64_t*)xi.p)[i] = (int64_t)(rng.next() % 2001) - 1000; ((int32_t*)x32.p)[i] = (int32_t)rng.next(); }
+    { REIM_FROM_ZNX64_PRECOMP* p = new_reim_from_znx64_precomp(m, 50); reim_from_znx64(p, r.p, (int64_t*)xi.p);
+      for (uint64_t i = 0; i < n; ++i) if (r.as<double>()[i] != (double)((int64_t*)xi.p)[i]) { ctx.violation(id, "reim_from_znx64 is not exact on an input that ends at the end of the mapped memory"); break; }
+      reim_from_znx64(p, xo.p, (int64_t*)xi.p); free(p); }
+    for (uint64_t i = 0; i < n; ++i) ((double*)xi.p)[i] = (double)((int64_t)(rng.next() % 2001) - 1000) * 4.0;
+    { REIM_TO_ZNX64_PRECOMP* p = new_reim_to_znx64_precomp(m, 4.0, 40); reim_to_znx64(p, r.as<int64_t>(), xi.p);
+      for (uint64_t i = 0; i < n; ++i) if (r.as<int64_t>()[i] * 4 != (int64_t)((double*)xi.p)[i]) { ctx.violation(id, "reim_to_znx64 is wrong on an input that ends at the end of the mapped memory"); break; }
+      reim_to_znx64(p, (int64_t*)xo.p, xi.p); free(p); }
+    { REIM_TO_ZNX64_PRECOMP* p = new_reim_to_znx64_precomp(m, 4.0, 63); reim_to_znx64(p, r.as<int64_t>(), xi.p); reim_to_znx64(p, (int64_t*)xo.p, xi.p); free(p); }
+    { REIM_TO_TNX_PRECOMP* p = new_reim_to_tnx_precomp(m, 4.0, 12); reim_to_tnx(p, r.as<double>(), (double*)xi.p); reim_to_tnx(p, (double*)xo.p, (double*)xi.p); free(p); }
+    { CPLX_FROM_ZNX32_PRECOMP* p = new_cplx_from_znx32_precomp(m); cplx_from_znx32(p, r.p, (int32_t*)x32.p); cplx_from_znx32(p, xo.p, (int32_t*)x32.p); free(p); }
+    { CPLX_FROM_TNX32_PRECOMP* p = new_cplx_from_tnx32_precomp(m); cplx_from_tnx32(p, r.p, (int32_t*)x32.p); cplx_from_tnx32(p, xo.p, (int32_t*)x32.p); free(p); }
+    for (uint64_t i = 0; i < n; ++i) ((double*)xi.p)[i] = (double)((int64_t)(rng.next() % 2001) - 1000) * 0x1p-8;
+    { CPLX_TO_TNX32_PRECOMP* p = new_cplx_to_tnx32_precomp(m, 4.0, 10); cplx_to_tnx32(p, r4.as<int32_t>(), xi.p); cplx_to_tnx32(p, (int32_t*)o32.p, xi.p); free(p); }
+    if (!r.guards_ok() || !r4.guards_ok()) ctx.violation(id, "write outside a declared extent (inputs at the end of the mapped memory)");
   }
   // int64 -> double: every log2bound 0..50, values below 2^log2bound
   for (uint32_t lb = 0; lb <= 50; ++lb) {
